@@ -432,7 +432,7 @@ Definition after_response (e : env) (r : res) : res :=
   let '(o, ds, c) := r in
   match o with
   | Use V1 | Use V2 =>
-      if c_h3 c && s_altsvc (e_srv e) then
+      if c_h3 c && s_altsvc (e_srv e) && (e_https e || negb altsvc_https_only) then
         match c_alt c with
         | ANone => (o, ds, with_alt (APending false) true c)            (* go handlePendingAltSvc *)
         | _ => r
